@@ -14,30 +14,43 @@ COMPS = [
     V.Component("dhcp4", monitors=MON, kind="gotest", drv_bin=DRV_BIN),
     V.Component("dhcp6", monitors=MON, kind="gotest", drv_bin=DRV_BIN),
 ]
-LEVEL = ("The binding invariants (Bind4: pool never double-books, every lease is backed by the pool binding of its MAC, "
-         "only usable undeclined host addresses are served; Bind6: the same for DHCPv6 addresses and delegated prefixes) "
-         "and their consequences (ack_not_foreign, one_binding_per_addr, served_in_pool, renew_same, "
-         "declined_not_reoffered, released/expired_reusable) are theorems over the Lean models of pkg/dhcp and "
-         "pkg/dhcpv6 for ALL message histories, time advances and cleanup orders from any pool configuration "
-         "(invariant + induction over the history). DHCPv4 theorems marked _partial assume that no message takes the "
-         "circuit-id-index path (recorded finding D9, proved as D9_witness); the DHCPv6 uniqueness/range/renew theorems "
-         "are unconditional, its expiry/decline/advertise defects (D6, D7, D8) are recorded findings with witness "
-         "theorems. The models are tied to the real Go code by differential execution: real dhcpv4 packets / DHCPv6 "
-         "messages go through the real handlers (verif hooks) under a virtual clock (testing/synctest; the v4 "
-         "one-minute cleanup ticker really runs), and reply + lease table + circuit index + pool state after every "
-         "message are compared verbatim with the model. An abstract binding table that sees only messages, replies "
-         "and time (Bng.BindSpec) judges the real code's replies.")
+LEVEL = ("The binding invariants (Bind4: pool never double-books, every lease is backed by the pool binding of its MAC or is "
+         "that MAC's Nexus allocation, only usable undeclined host addresses are served; Bind6: the same for DHCPv6 "
+         "addresses and delegated prefixes) and their consequences (ack_not_foreign, one_binding_per_addr, "
+         "served_in_pool, renew_same, declined_not_reoffered, released/expired_reusable) are theorems over the Lean "
+         "models of pkg/dhcp and pkg/dhcpv6 for ALL message histories, time advances, cleanup orders and cleanup passes "
+         "split at their lock gap, from any pool configuration (invariant + induction over the history). DHCPv4 theorems "
+         "marked _partial assume that no message takes the circuit-id-index path (recorded finding D9, proved as "
+         "D9_witness) and, in Nexus mode, that the external Nexus API never gives one address to two MACs and none of "
+         "the local pool's host addresses (NexusOk); the DHCPv6 uniqueness/range/renew theorems are unconditional, its "
+         "expiry/decline/advertise defects (D6, D7, D8) are recorded findings with witness theorems. The models are "
+         "tied to the real Go code by differential execution: real dhcpv4 packets / DHCPv6 messages go through the "
+         "real handlers (verif hooks) under a virtual clock (testing/synctest; the v4 one-minute cleanup ticker really "
+         "runs; `gap` handles a message between the scan and the removal of a real cleanup pass), and reply + lease "
+         "table + circuit index + pool state after every message are compared verbatim with the model. An abstract "
+         "binding table that sees only messages, replies and time (Bng.BindSpec) judges the real code's replies. "
+         "GENERATOR REACH: the property record's quantifier says 'k<=4 exhaustively to depth 6'; that product (~10^10 "
+         "sequences) is NOT enumerated. Enumerated exhaustively (thorough tier; quick = seeded sample) are smaller "
+         "scopes: v4 2 clients depth 5/6 (13/8 letters, one-address pool), 3 clients depth 4 (21 letters), 4 clients "
+         "depth 3 (43 letters, requested address in {own, other's, gateway, broadcast, network, outside, none}), a "
+         "lock-gap scope (lease 290 s, 2 clients depth 4) and a Nexus-mode scope (3 clients depth 3); v6 2 clients "
+         "depth 5 and 3 clients depth 4; plus seeded random runs to depth 200 with 6 (v4) / 9 (v6) clients.")
 ASSUME = [
-    "each handler call is one atomic step (the harness delivers one packet at a time); cleanupExpiredLeases is atomic "
-    "(its RLock scan / Lock removal window is not interleaved with packets); data races are not modelled",
-    "DHCPv4: one pool (ClassifyClient's default), no reserved ranges; Nexus client, HTTP allocator, peer pool, RADIUS "
+    "each handler call is one atomic step (the harness delivers one packet at a time); cleanupExpiredLeases is split at "
+    "the one point where it holds no lock (between scan and removal); data races inside a critical section are not modelled",
+    "DHCPv4: one pool (ClassifyClient's default), no reserved ranges; Nexus client (GetSubscriberByMAC), peer pool, RADIUS "
     "authentication/accounting, QoS, NAT and the eBPF cache are absent/disabled (an ebpf.Loader that never loaded its maps); "
-    "option 82 is either absent or carries a non-empty circuit-id",
+    "Nexus HTTP-allocator mode IS covered: LookupIPv4 answers found / 404 from a fixed table through the real "
+    "nexus.HTTPAllocator and an in-process HTTP handler (lookup failures other than 404 are not generated)",
+    "NexusOk (assumption about an external system, hypothesis of the v4 theorems in Nexus mode): Nexus allocations are "
+    "unique per address and are not host addresses of the local walled-garden pool; the generator's tables satisfy it",
+    "option 82 is absent, carries a circuit-id, an empty circuit-id, only a remote-id, or a truncated TLV",
     "DHCPv6: legacy AddressPool/PrefixPool mode only (not the integrated allocator.PoolAllocator), no relay messages, "
     "no Information-Request; pools of at most 7 addresses / 4 prefixes in the correspondence runs (the generation "
     "arithmetic of large pools belongs to C01's v6addr/v6prefix components)",
-    "time: messages arrive on whole virtual minutes, the v4 cleanup ticker fires 30 s later; the monitor treats an OFFER/"
-    "Advertise as outstanding for 60 s and a lease as occupying its value until 60 s after its end (the cleanup period)",
+    "time: messages arrive on whole virtual minutes, the v4 cleanup ticker fires 30 s later; lease times 300 s (on the grid) "
+    "and 290 s (expiry between message instant and ticker); the monitor treats an OFFER/Advertise as outstanding for 60 s "
+    "and a lease as occupying its value until 60 s after its end (the cleanup period)",
     "wire codec (insomniacslk/dhcp for v4, pkg/dhcpv6/protocol.go for v6) is exercised (every message is serialised and "
     "re-parsed) but not modelled",
 ]
